@@ -43,6 +43,7 @@ type Opts struct {
 	NoVariableRefs bool     // no name_match (expression) group/label references
 	WebhookCmds    []string // extra mock webhook commands (e.g. casevariant)
 	SubflowHeavy   bool     // many enter_flow actions (several per node, missing and wrong-type targets)
+	NoRandom       bool     // no random routers (outputs comparable across executions without a pinned random source)
 }
 
 // World is a generated asset document plus the indexes the scenario generator needs.
@@ -482,7 +483,7 @@ func (g *gen) router(flowType string, nodeInfo *Node) (M, []M) {
 		return c
 	}
 	r := M{}
-	if rapid.IntRange(0, 5).Draw(g.t, "routertype") == 0 {
+	if rapid.IntRange(0, 5).Draw(g.t, "routertype") == 0 && !g.o.NoRandom {
 		r["type"] = "random"
 		n := rapid.IntRange(1, 4).Draw(g.t, "ncats")
 		for i := 0; i < n; i++ {
